@@ -17,6 +17,12 @@ import Asn1cModel.Proofs.L2Xer
     OBJECT IDENTIFIER, time types, SET, SET OF (CANONICAL-XER reorders the elements).  BASIC-XER leaves the final newline unconsumed (finding F30), CANONICAL-XER consumes everything.
   * `xer_basic_canonical_same_value`: the BASIC and the CANONICAL rendering of a value decode alike.
   * `cxer_setOf_perm`: the CANONICAL-XER encoding of a SET OF does not depend on the order of the elements.
+  * `cxer_seq_default_indep` / `cxer_set_default_indep` (finding F56, repaired): the CANONICAL-XER encoding of a
+    SEQUENCE / SET does not depend on whether a component that holds its DEFAULT value is stored or left absent
+    (`dropDefaults` = every such component made absent); `ref_F56_witness` is the former witness.  The domain
+    of the round trip (`rtVal c`) follows: BASIC-XER writes the default value of an absent DEFAULT component,
+    so it returns the value with that component stored; CANONICAL-XER writes neither form, so it returns the
+    value with that component absent.
   * `tokens_render`: the tokenizer (model of `pxml_parse` / `xer_next_token`) inverts the rendering of
     well-formed token lists.
   * the hypotheses of the round trip are necessary: `ref_F153_witness` (an ENUMERATED component whose identifier
@@ -33,7 +39,7 @@ def topOk (t : XTop) : Bool := nameOk t.name && !clash t.ty t.name && rtTy t.ty
 /-- **C01 for XER**: decoding the BASIC-XER / CANONICAL-XER encoding of a value returns the value;
     the decoder consumes everything but the final newline of BASIC-XER (finding F30) -/
 theorem xer_roundtrip_consumed (c : Bool) (t : XTop) (v : Val) (bs : Bytes) (ht : topOk t = true)
-    (hv : rtVal t.ty v = true) (he : encXER c t v = some bs) :
+    (hv : rtVal c t.ty v = true) (he : encXER c t v = some bs) :
     decXERc t bs = some (v, if c then bs.length else bs.length - 1) := by
   simp only [topOk, Bool.and_eq_true, Bool.not_eq_true'] at ht
   obtain ⟨⟨hn, hc⟩, hty⟩ := ht
@@ -51,22 +57,25 @@ theorem xer_roundtrip_consumed (c : Bool) (t : XTop) (v : Val) (bs : Bytes) (ht 
     cases c <;> simp
 
 theorem xer_roundtrip (c : Bool) (t : XTop) (v : Val) (bs : Bytes) (ht : topOk t = true)
-    (hv : rtVal t.ty v = true) (he : encXER c t v = some bs) : decXER t bs = some v := by
+    (hv : rtVal c t.ty v = true) (he : encXER c t v = some bs) : decXER t bs = some v := by
   unfold decXER
   rw [xer_roundtrip_consumed c t v bs ht hv he]; rfl
 
 /-- the same statement for a component / element decoder in its context: arbitrary bytes may follow -/
 theorem xer_roundtrip_member (c : Bool) (t : XTy) (name : Bytes) (il : Nat) (v : Val) (body rest : Bytes)
-    (ht : rtTy t = true) (hn : nameOk name = true) (hc : clash t name = false) (hv : rtVal t v = true)
+    (ht : rtTy t = true) (hn : nameOk name = true) (hc : clash t name = false) (hv : rtVal c t v = true)
     (he : encTy c t il v = some body) :
     decTy (body.length + 4) t name (openTag name ++ body ++ closeTag name ++ rest) = some (v, rest) :=
   rt_all t ht c name il v body rest _ hn hc hv he (Nat.le_refl _)
 
-/-- BASIC-XER and CANONICAL-XER are two renderings of one value: both decode to it -/
+/-- BASIC-XER and CANONICAL-XER are two renderings of one value: both decode to it (for a value in the domain
+    of both round trips: a DEFAULT component, if stored, holds another value than the default - the two
+    variants return the two representations of a default-valued component, see `rtVal`) -/
 theorem xer_basic_canonical_same_value (t : XTop) (v : Val) (b₁ b₂ : Bytes) (ht : topOk t = true)
-    (hv : rtVal t.ty v = true) (h₁ : encXER false t v = some b₁) (h₂ : encXER true t v = some b₂) :
+    (hv₁ : rtVal false t.ty v = true) (hv₂ : rtVal true t.ty v = true)
+    (h₁ : encXER false t v = some b₁) (h₂ : encXER true t v = some b₂) :
     decXER t b₁ = decXER t b₂ := by
-  rw [xer_roundtrip false t v b₁ ht hv h₁, xer_roundtrip true t v b₂ ht hv h₂]
+  rw [xer_roundtrip false t v b₁ ht hv₁ h₁, xer_roundtrip true t v b₂ ht hv₂ h₂]
 
 /-- **CANONICAL-XER SET OF**: the encoding does not depend on the order in which the elements are stored
     (SET_OF_encode_xer sorts the element encodings) -/
@@ -105,24 +114,145 @@ theorem encXER_enumerated (c : Bool) (n : Bytes) (ns : List Bytes) (vs : List In
     encXER c ⟨n, .enumerated ns vs⟩ (.int z) = some (openTag n ++ emptyTag x ++ closeTag n ++ if c then [] else [10]) := by
   simp [encXER, encTy, h]
 
-/-- CANONICAL-XER of a SEQUENCE is the concatenation of its present components, each wrapped in its identifier -/
+/-- CANONICAL-XER of a SEQUENCE is the concatenation of its present components that do not hold their DEFAULT
+    value, each wrapped in its identifier -/
 theorem encCXER_seq_cons (n : Bytes) (ns : List Bytes) (m : XTy) (ms : List XTy) (a : Attr) (as : List Attr) (il : Nat)
-    (v : Val) (vs : List Val) (b r : Bytes) (hv : rtVal m v = true) (hb : encTy true m (il + 1) v = some b)
-    (hr : encMembers true ns ms as il vs = some r) :
+    (v : Val) (vs : List Val) (b r : Bytes) (hv : rtVal true m v = true) (hd : isDefault a v = false)
+    (hb : encTy true m (il + 1) v = some b) (hr : encMembers true ns ms as il vs = some r) :
     encMembers true (n :: ns) (m :: ms) (a :: as) il (v :: vs) = some (openTag n ++ b ++ closeTag n ++ r) := by
   cases v with
   | absent => simp [rtVal_absent] at hv
-  | _ => simp [encMembers, hb, hr]
+  | _ => simp [encMembers, hb, hr, hd]
 
-/-- an absent DEFAULT component is written with its default value, in both variants (the SEQUENCE encoder
-    materialises the default; CANONICAL-XER does not omit it: cf. finding F56) -/
-theorem encMembers_default_absent (c : Bool) (n : Bytes) (ns : List Bytes) (m : XTy) (ms : List XTy) (a : Attr)
-    (as : List Attr) (il : Nat) (vs : List Val) (d : Val) (hd : dfltVal a = some d) (hne : rtVal m d = true) :
-    encMembers c (n :: ns) (m :: ms) (a :: as) il (.absent :: vs) =
-      encMembers c (n :: ns) (m :: ms) (a :: as) il (d :: vs) := by
+/-- BASIC-XER: an absent DEFAULT component is written with its default value (the SEQUENCE encoder materialises
+    the default: an encoder's option of X.693 8) -/
+theorem encMembers_default_absent (n : Bytes) (ns : List Bytes) (m : XTy) (ms : List XTy) (a : Attr)
+    (as : List Attr) (il : Nat) (vs : List Val) (d : Val) (hd : dfltVal a = some d) (hne : rtVal false m d = true) :
+    encMembers false (n :: ns) (m :: ms) (a :: as) il (.absent :: vs) =
+      encMembers false (n :: ns) (m :: ms) (a :: as) il (d :: vs) := by
   cases d with
   | absent => simp [rtVal_absent] at hne
   | _ => simp [encMembers, hd]
+
+/-! ### CANONICAL-XER does not encode default values (finding F56, repaired) -/
+
+/-- every component that is stored with its DEFAULT value made absent -/
+def dropDefaults : List Attr → List Val → List Val
+  | a :: as, v :: vs => (if isDefault a v then .absent else v) :: dropDefaults as vs
+  | _, vs => vs
+
+/-- a component with a DEFAULT value may be omitted (`elements[i].optional` counts it; the resolver flags it) -/
+def dfltOmitable (attrs : List Attr) : Prop := ∀ a ∈ attrs, a.dflt.isSome = true → omitable a = true
+
+theorem isDefault_dflt (a : Attr) (v : Val) (h : isDefault a v = true) : a.dflt.isSome = true := by
+  unfold isDefault at h
+  cases hd : a.dflt with
+  | none => simp [hd] at h
+  | some d => rfl
+
+theorem isDefault_absent (a : Attr) : isDefault a .absent = false := by
+  unfold isDefault
+  cases a.dflt with
+  | none => rfl
+  | some d => cases d <;> rfl
+
+/-- CANONICAL-XER, SEQUENCE: a component holding its DEFAULT value is written like an absent one: not at all -/
+theorem encCXER_default_omitted (n : Bytes) (ns : List Bytes) (m : XTy) (ms : List XTy) (a : Attr) (as : List Attr)
+    (il : Nat) (v : Val) (vs : List Val) (hd : isDefault a v = true) (ho : omitable a = true) :
+    encMembers true (n :: ns) (m :: ms) (a :: as) il (v :: vs) =
+      encMembers true (n :: ns) (m :: ms) (a :: as) il (.absent :: vs) := by
+  cases v with
+  | absent => rfl
+  | _ => simp [encMembers, hd, ho]
+
+theorem encMembers_dropDefaults : ∀ (ns : List Bytes) (ms : List XTy) (as : List Attr) (il : Nat) (vs : List Val),
+    dfltOmitable as → encMembers true ns ms as il (dropDefaults as vs) = encMembers true ns ms as il vs := by
+  intro ns
+  induction ns with
+  | nil => intro ms as il vs _; cases as <;> cases vs <;> cases ms <;> simp [dropDefaults, encMembers]
+  | cons n ns ih =>
+    intro ms as il vs ho
+    cases as with
+    | nil => rfl
+    | cons a as =>
+      cases vs with
+      | nil => rfl
+      | cons v vs =>
+        cases ms with
+        | nil => simp [dropDefaults, encMembers]
+        | cons m ms =>
+          have ih' := ih ms as il vs (fun x hx => ho x (by simp [hx]))
+          by_cases hd : isDefault a v = true
+          · have hoa := ho a (by simp) (isDefault_dflt a v hd)
+            rw [encCXER_default_omitted n ns m ms a as il v vs hd hoa]
+            simp only [dropDefaults, hd, if_true]
+            simp only [encMembers, hoa, if_true, ih']
+          · simp only [Bool.not_eq_true] at hd
+            simp only [dropDefaults, hd, Bool.false_eq_true, if_false]
+            cases v <;> simp only [encMembers, hd, Bool.and_false, Bool.false_eq_true, if_false, ih']
+
+theorem encNth_dropDefaults : ∀ (ns : List Bytes) (ms : List XTy) (as : List Attr) (il : Nat) (vs : List Val) (k : Nat),
+    dfltOmitable as → encNth true ns ms as il (dropDefaults as vs) k = encNth true ns ms as il vs k := by
+  intro ns
+  induction ns with
+  | nil => intro ms as il vs k _; cases as <;> cases vs <;> cases ms <;> cases k <;> simp [dropDefaults, encNth]
+  | cons n ns ih =>
+    intro ms as il vs k ho
+    cases as with
+    | nil => rfl
+    | cons a as =>
+      cases vs with
+      | nil => rfl
+      | cons v vs =>
+        cases ms with
+        | nil => cases k <;> simp [dropDefaults, encNth]
+        | cons m ms =>
+          cases k with
+          | succ k =>
+            simp only [dropDefaults, encNth]
+            exact ih ms as il vs k (fun x hx => ho x (by simp [hx]))
+          | zero =>
+            by_cases hd : isDefault a v = true
+            · have hoa := ho a (by simp) (isDefault_dflt a v hd)
+              simp only [dropDefaults, hd, if_true]
+              cases v with
+              | absent => rfl
+              | _ => simp [encNth, hd, hoa]
+            · simp only [Bool.not_eq_true] at hd
+              simp only [dropDefaults, hd, Bool.false_eq_true, if_false]
+              cases v <;> rfl
+
+/-- **CANONICAL-XER SEQUENCE** (C06 for default materialisation): the encoding does not depend on whether the
+    components that hold their DEFAULT value are stored or absent -/
+theorem cxer_seq_default_indep (name : Bytes) (names : List Bytes) (ms : List XTy) (attrs : List Attr) (fe : Option Nat)
+    (vs : List Val) (ho : dfltOmitable attrs) :
+    encXER true ⟨name, .seq names ms attrs fe⟩ (.seq (dropDefaults attrs vs)) =
+      encXER true ⟨name, .seq names ms attrs fe⟩ (.seq vs) := by
+  simp only [encXER, encTy, encMembers_dropDefaults names ms attrs 1 vs ho]
+
+/-- **CANONICAL-XER SET**: likewise (SET_encode_xer) -/
+theorem cxer_set_default_indep (name : Bytes) (names : List Bytes) (ms : List XTy) (attrs : List Attr) (order : List Nat)
+    (fe : Bool) (vs : List Val) (ho : dfltOmitable attrs) :
+    encXER true ⟨name, .set names ms attrs order fe⟩ (.seq (dropDefaults attrs vs)) =
+      encXER true ⟨name, .set names ms attrs order fe⟩ (.seq vs) := by
+  simp only [encXER, encTy, encNth_dropDefaults names ms attrs 1 vs _ ho]
+
+/-- ... also as a component at any depth of indentation -/
+theorem cxer_seq_default_indep_member (names : List Bytes) (ms : List XTy) (attrs : List Attr) (fe : Option Nat) (il : Nat)
+    (vs : List Val) (ho : dfltOmitable attrs) :
+    encTy true (.seq names ms attrs fe) il (.seq (dropDefaults attrs vs)) = encTy true (.seq names ms attrs fe) il (.seq vs) := by
+  simp only [encTy, encMembers_dropDefaults names ms attrs il vs ho]
+
+/-- the former witness of finding F56, `T ::= SEQUENCE { a INTEGER DEFAULT 5, b BOOLEAN }`: { a 5, b TRUE } and
+    { b TRUE } have one CANONICAL-XER encoding, `<T><b><true/></b></T>`; BASIC-XER writes `<a>5</a>` for both -/
+def exF56 : XTop := ⟨[84], .seq [[97], [98]] [.integer .long, .boolean] [⟨true, some (.int 5), false⟩, ⟨false, none, false⟩] none⟩
+
+theorem ref_F56_witness :
+    encXER true exF56 (.seq [.int 5, .bool true]) = some (Xer.strBytes "<T><b><true/></b></T>") ∧
+    encXER true exF56 (.seq [.absent, .bool true]) = some (Xer.strBytes "<T><b><true/></b></T>") ∧
+    encXER false exF56 (.seq [.int 5, .bool true]) = encXER false exF56 (.seq [.absent, .bool true]) ∧
+    decXER exF56 [60, 84, 62, 60, 98, 62, 60, 116, 114, 117, 101, 47, 62, 60, 47, 98, 62, 60, 47, 84, 62] = some (.seq [.absent, .bool true]) := by
+  refine ⟨by decide +kernel, by decide +kernel, by decide +kernel, rfl⟩
 
 /-! ### the tokenizer -/
 
@@ -266,7 +396,8 @@ def exVal : Val :=
         .list [.bool true, .bool false], .list [.choice 0 (.int 7), .choice 1 .null]]
 
 example : topOk exTy = true := by decide
-example : rtVal exTy.ty exVal = true := by decide
+example : rtVal true exTy.ty exVal = true := by decide
+example : rtVal false exTy.ty exVal = true := by decide
 theorem exTy_encCXER :
     encXER true exTy exVal = some (Xer.strBytes
       "<T><c><y></y></c><l><INTEGER>1</INTEGER><INTEGER>-2</INTEGER></l><e><g/></e><o>01FF</o><b>1010</b><u>a&lt;<nul/>&amp;</u><f><true/><false/></f><k><p>7</p><q></q></k></T>") := by
